@@ -286,7 +286,8 @@ def validate_rows(lines, workdir, name, timeout=3000, weight=None):
                               env={"TRACE": fn}, timeout=timeout)
         tags = parse_tagged(out)
         if rc != 0 or "VIOL" not in tags or "STAT" not in tags:
-            keep = fn + ".tlcout"
+            os.makedirs(os.path.join(WORK, "keep"), exist_ok=True)
+            keep = os.path.join(WORK, "keep", os.path.basename(fn) + ".tlcout")
             with open(keep, "w") as f:
                 f.write(out)
             raise ToolError("table validation failed to run to completion on %s (rc=%d); output kept at %s\n%s" % (fn, rc, keep, out[-3000:]))
